@@ -3,19 +3,17 @@
 package harness
 
 import (
+	"bytes"
+	"crypto/sha256"
 	"fmt"
-	"math/rand"
-	"os"
-	"sort"
+	"math/big"
 	"strconv"
-	"strings"
 	"testing"
 	"time"
 
 	abci "github.com/cometbft/cometbft/abci/types"
 	cmtproto "github.com/cometbft/cometbft/proto/tendermint/types"
 
-	sdkmath "cosmossdk.io/math"
 	storetypes "cosmossdk.io/store/types"
 
 	"github.com/cosmos/cosmos-sdk/client/tx"
@@ -31,6 +29,7 @@ import (
 
 	simapp "github.com/provenance-io/provenance/app"
 	"github.com/provenance-io/provenance/internal/pioconfig"
+	markertypes "github.com/provenance-io/provenance/x/marker/types"
 	triggertypes "github.com/provenance-io/provenance/x/trigger/types"
 )
 
@@ -40,11 +39,42 @@ const (
 	c17Chain   = "verif-c17"
 	c17TrigDen = "trigcoin" // only trigger actions and TSend txs move this denom
 	c17EvtDen  = "evtcoin"  // moved by the event-emitting transactions
+	c17RDen    = "rcoin"    // restricted marker coin: only marker transfer actions move it
+	c17Root    = "trig"     // restricted root name the bind actions bind under
+	c17NNames  = 8          // names n0.trig .. n7.trig
 )
 
 type c17Acct struct {
 	priv cryptotypes.PrivKey
 	addr sdk.AccAddress
+}
+
+func c17Accts(n int) []c17Acct {
+	out := make([]c17Acct, n)
+	for i := range out {
+		priv := secp256k1.GenPrivKeyFromSecret([]byte(fmt.Sprintf("verif-c17-key-%d", i)))
+		out[i] = c17Acct{priv: priv, addr: sdk.AccAddress(priv.PubKey().Address())}
+	}
+	return out
+}
+
+// c17Imported is a trigger handed to the keeper's InitGenesis before the first block.
+type c17Imported struct {
+	id     uint64
+	owner  int
+	ev     triggertypes.TriggerEventI
+	evCoq  string
+	acts   []c17Act
+	limit  uint64
+	queued bool
+}
+
+type c17Setup struct {
+	trigBal, rBal []int64
+	xfer          []int // accounts with ACCESS_TRANSFER on the restricted marker
+	rootOwner     int
+	imported      []c17Imported
+	nextID        uint64
 }
 
 type c17Net struct {
@@ -58,28 +88,76 @@ type c17Net struct {
 	haltErr     error
 }
 
-func c17NewNet(t *testing.T, nAcc int, trigBal []int64) *c17Net {
+func c17NewNet(t *testing.T, accts []c17Acct, su c17Setup) *c17Net {
 	pioconfig.SetProvenanceConfig(sdk.DefaultBondDenom, 1)
-	n := &c17Net{t: t}
+	n := &c17Net{t: t, accts: accts}
 	var gen []authtypes.GenesisAccount
 	var bals []banktypes.Balance
-	for i := 0; i < nAcc; i++ {
-		priv := secp256k1.GenPrivKeyFromSecret([]byte(fmt.Sprintf("verif-c17-key-%d", i)))
-		a := c17Acct{priv: priv, addr: sdk.AccAddress(priv.PubKey().Address())}
-		n.accts = append(n.accts, a)
-		gen = append(gen, authtypes.NewBaseAccount(a.addr, priv.PubKey(), uint64(i), 0))
+	for i, a := range accts {
+		gen = append(gen, authtypes.NewBaseAccount(a.addr, a.priv.PubKey(), uint64(i), 0))
 		coins := sdk.NewCoins(sdk.NewInt64Coin(sdk.DefaultBondDenom, 1_000_000_000_000), sdk.NewInt64Coin(c17EvtDen, 1_000_000_000))
-		if i < len(trigBal) && trigBal[i] > 0 {
-			coins = coins.Add(sdk.NewInt64Coin(c17TrigDen, trigBal[i]))
+		if i < len(su.trigBal) && su.trigBal[i] > 0 {
+			coins = coins.Add(sdk.NewInt64Coin(c17TrigDen, su.trigBal[i]))
 		}
 		bals = append(bals, banktypes.Balance{Address: a.addr.String(), Coins: coins})
 	}
 	n.app = simapp.SetupWithGenesisAccounts(t, c17Chain, gen, bals...)
+	n.now = time.Unix(1_700_000_000, 0).UTC()
+	// state written through the keepers on the not yet committed first block: the restricted root name, the
+	// restricted marker with its coins handed out, and the trigger module's genesis
+	ctx := n.app.BaseApp.NewContextLegacy(false, cmtproto.Header{ChainID: c17Chain, Height: n.app.LastBlockHeight() + 1, Time: n.now})
+	must := func(err error, what string) {
+		if err != nil {
+			t.Fatalf("c17 setup %s: %v", what, err)
+		}
+	}
+	must(n.app.NameKeeper.SetNameRecord(ctx, c17Root, accts[su.rootOwner].addr, true), "root name")
+	grants := []markertypes.AccessGrant{{Address: accts[0].addr.String(), Permissions: markertypes.AccessList{markertypes.Access_Admin,
+		markertypes.Access_Mint, markertypes.Access_Burn, markertypes.Access_Withdraw, markertypes.Access_Deposit}}}
+	for _, x := range su.xfer {
+		if x == 0 {
+			grants[0].Permissions = append(grants[0].Permissions, markertypes.Access_Transfer)
+		} else {
+			grants = append(grants, markertypes.AccessGrant{Address: accts[x].addr.String(), Permissions: markertypes.AccessList{markertypes.Access_Transfer}})
+		}
+	}
+	ma := markertypes.NewMarkerAccount(authtypes.NewBaseAccountWithAddress(markertypes.MustGetMarkerAddress(c17RDen)), sdk.NewInt64Coin(c17RDen, 1_000_000),
+		accts[0].addr, grants, markertypes.StatusProposed, markertypes.MarkerType_RestrictedCoin, true, true, false, nil)
+	must(n.app.MarkerKeeper.AddFinalizeAndActivateMarker(ctx, ma), "marker")
+	for i := range accts {
+		if i < len(su.rBal) && su.rBal[i] > 0 {
+			must(n.app.MarkerKeeper.WithdrawCoins(ctx, accts[0].addr, accts[i].addr, c17RDen, sdk.NewCoins(sdk.NewInt64Coin(c17RDen, su.rBal[i]))), "withdraw")
+		}
+	}
+	if len(su.imported) > 0 || su.nextID > 1 {
+		var trs []triggertypes.Trigger
+		var qs []triggertypes.QueuedTrigger
+		var gls []triggertypes.GasLimit
+		for _, im := range su.imported {
+			evAny, err := codectypes.NewAnyWithValue(im.ev)
+			must(err, "event any")
+			var msgs []sdk.Msg
+			for _, a := range im.acts {
+				msgs = append(msgs, a.msg)
+			}
+			actAnys, err := sdktx.SetMsgs(msgs)
+			must(err, "actions any")
+			tr := triggertypes.NewTrigger(im.id, accts[im.owner].addr.String(), evAny, actAnys)
+			if im.queued {
+				qs = append(qs, triggertypes.NewQueuedTrigger(tr, n.now, uint64(n.app.LastBlockHeight()+1)))
+			} else {
+				trs = append(trs, tr)
+			}
+			gls = append(gls, triggertypes.GasLimit{TriggerId: im.id, Amount: im.limit})
+		}
+		gs := triggertypes.NewGenesisState(su.nextID, 1, trs, gls, qs)
+		must(try(func() error { n.app.TriggerKeeper.InitGenesis(ctx, gs); return nil }), "trigger genesis")
+	}
+	ctx.MultiStore().(storetypes.CacheMultiStore).Write()
 	if _, err := n.app.Commit(); err != nil {
 		t.Fatalf("commit: %v", err)
 	}
 	n.height = n.app.LastBlockHeight()
-	n.now = time.Unix(1_700_000_000, 0).UTC()
 	n.pendingSeq = map[int]uint64{}
 	return n
 }
@@ -154,633 +232,47 @@ func (n *c17Net) block(at time.Time, txs [][]byte) *abci.ResponseFinalizeBlock {
 	return res
 }
 
-// ---------- history generator ----------
-
-type c17Action struct {
-	from, to int
-	amt      int64
-}
-
-type c17Trig struct {
-	id    uint64
-	owner int
-}
-
-type c17Plan struct {
-	kind   string // create | destroy | tsend | emit
-	bz     []byte
-	gas    uint64
-	coqPre string // Coq term of the tx up to (not including) the trailing `used` of a create
-	desc   string
-	shape  string
-	lowGas bool
-	nActs  int
-	band   string
-	noAnte bool // fails in ValidateBasic or in the ante handler: sequences do not advance
-}
-
-type c17Gen struct {
-	t      *testing.T
-	r      *rand.Rand
-	w      *CaseWriter
-	n      *c17Net
-	nAcc   int
-	intern map[string]int
-	reg    []c17Trig // last observation
-	queue  []c17Trig
-	maxID  uint64
-	burstH uint64
-	burstT int64       // unix nanoseconds
-	times  []time.Time // the block times of the whole history, planned up front (with sub-second parts)
-	bi     int         // index of the block being planned
-	style  int
-	limits map[uint64]uint64 // gas limits seen at the last observation
-	nActs  map[uint64]int    // number of actions per created trigger
-	cal    *c17Cal
-	band   map[uint64]string // precise-gas triggers: "n=2,k=1" (limit between k and k+1 times one send)
-}
-
-func (g *c17Gen) sym(s string) string {
-	if s == "" {
-		return "0"
-	}
-	v, ok := g.intern[s]
-	if !ok {
-		v = len(g.intern) + 1
-		g.intern[s] = v
-	}
-	return strconv.Itoa(v)
-}
-
-func (g *c17Gen) addrStr(i int) string { return g.n.accts[i].addr.String() }
-
-func c17NList(xs []int) string {
-	items := make([]string, len(xs))
-	for i, x := range xs {
-		items[i] = strconv.Itoa(x)
-	}
-	return coqList(items)
-}
-
-var c17EventTypes = map[string]bool{"coin_received": true, "coin_spent": true, "transfer": true, "message": true}
-
-// c17Cal is measured once per run on the binary under test.
-type c17Cal struct {
-	cMin, cTyp uint64    // gas of one successful bank send through the router's handler: least over state shapes, typical
-	used       [4]uint64 // gas a precise-shape creation with n actions has consumed when the limit is computed
-}
-
-// c17Calibrate measures (a) what one bank-send action costs when run the way the dispatcher runs it (the
-// router's handler on a context with its own gas meter) for the state shapes that change the cost
-// (receiver without balance, sender left without balance, self send, longer amounts), (b) the overhead of
-// the precise-shape creation, and (c) cross-checks (a) with real one-action triggers around the cost.
-func c17Calibrate(t *testing.T, w *CaseWriter) *c17Cal {
-	n := c17NewNet(t, 5, []int64{100000, 100000, 0, 50, 0})
-	cal := &c17Cal{}
-	measure := func(from, to int, amt int64) uint64 {
-		ctx, _ := n.queryCtx().CacheContext()
-		ctx = ctx.WithGasMeter(storetypes.NewGasMeter(10_000_000))
-		msg := banktypes.NewMsgSend(n.accts[from].addr, n.accts[to].addr, sdk.NewCoins(sdk.NewInt64Coin(c17TrigDen, amt)))
-		if _, err := n.app.MsgServiceRouter().Handler(msg)(ctx, msg); err != nil {
-			t.Fatalf("calibration send: %v", err)
-		}
-		return ctx.GasMeter().GasConsumed()
-	}
-	cal.cTyp = measure(0, 1, 7)
-	cal.cMin = cal.cTyp
-	for _, sh := range [][3]int64{{0, 1, 7}, {0, 2, 7}, {3, 1, 50}, {3, 2, 50}, {0, 0, 7}, {3, 3, 50}, {0, 1, 99999}, {3, 4, 1}, {0, 1, 1}} {
-		if c := measure(int(sh[0]), int(sh[1]), sh[2]); c < cal.cMin {
-			cal.cMin = c
-		}
-	}
-	mk := func(na int, gas uint64) []byte {
-		var msgs []sdk.Msg
-		for i := 0; i < na; i++ {
-			msgs = append(msgs, banktypes.NewMsgSend(n.accts[0].addr, n.accts[1].addr, sdk.NewCoins(sdk.NewInt64Coin(c17TrigDen, 7))))
-		}
-		m := triggertypes.MustNewCreateTriggerRequest([]string{n.accts[0].addr.String()}, &triggertypes.BlockHeightEvent{BlockHeight: uint64(n.height + 3)}, msgs)
-		bz, err := n.signTx(gas, []int{0}, m)
-		if err != nil {
-			t.Fatal(err)
-		}
-		n.pendingSeq[0]++
-		return bz
-	}
-	limits := func() map[uint64]uint64 {
-		out := map[uint64]uint64{}
-		gls, err := n.app.TriggerKeeper.GetAllGasLimits(n.queryCtx())
-		if err != nil {
-			t.Fatal(err)
-		}
-		for _, gl := range gls {
-			out[gl.TriggerId] = gl.Amount
-		}
-		return out
-	}
-	res := n.block(n.now.Add(5*time.Second), [][]byte{mk(1, 400000), mk(2, 400000), mk(3, 400000)})
-	if res == nil {
-		t.Fatalf("calibration block: %v", n.haltErr)
-	}
-	lim := limits()
-	for na := 1; na <= 3; na++ {
-		if res.TxResults[na-1].Code != 0 || lim[uint64(na)] == 0 {
-			t.Fatalf("calibration create %d: %s", na, res.TxResults[na-1].Log)
-		}
-		cal.used[na] = 400000 - 2510 - lim[uint64(na)]
-	}
-	// cross-check with real triggers: one action, limits just below / above the typical cost
-	offs := []int64{-400, -150, 150, 400}
-	var txs [][]byte
-	for _, d := range offs {
-		txs = append(txs, mk(1, cal.used[1]+2510+uint64(int64(cal.cTyp)+d)))
-	}
-	if res = n.block(n.now.Add(5*time.Second), txs); res == nil {
-		t.Fatalf("calibration block: %v", n.haltErr)
-	}
-	lim = limits()
-	okByID := map[uint64]bool{}
-	for i := 0; i < 6; i++ {
-		if res = n.block(n.now.Add(5*time.Second), nil); res == nil {
-			t.Fatalf("calibration block: %v", n.haltErr)
-		}
-		for _, e := range res.Events {
-			if e.Type == "provenance.trigger.v1.EventTriggerExecuted" {
-				idq, _ := c17Attr(e, "trigger_id")
-				id, _ := strconv.ParseUint(strings.Trim(idq, "\""), 10, 64)
-				okS, _ := c17Attr(e, "success")
-				okByID[id] = okS == "true"
-			}
-		}
-	}
-	for i := range offs {
-		id := uint64(4 + i)
-		ok, seen := okByID[id]
-		if !seen {
-			w.Count("calibration_trigger_not_executed")
-			continue
-		}
-		if ok != (lim[id] >= cal.cTyp) {
-			w.Count("calibration_cross_check_disagrees") // the handler measurement does not predict the trigger outcome
-		} else {
-			w.Count("calibration_cross_check_agrees")
-		}
-	}
-	w.CountN("calibrated_send_gas_min", int64(cal.cMin))
-	w.CountN("calibrated_send_gas_typical", int64(cal.cTyp))
-	w.CountN("calibrated_create_overhead_1_action", int64(cal.used[1]))
-	return cal
-}
-
-// planPrecise: one authority, height condition, 1-3 affordable sends, and a gas limit aimed between k and
-// k+1 times the cost of one send (k = 0: not even one action fits ... k > n: everything fits).
-func (g *c17Gen) planPrecise() *c17Plan {
-	r, n := g.r, g.n
+// digests of the committed state: (a) the two coins in the bank store plus the whole marker, authz and
+// name stores, (b) the trigger records, listeners and next id (not the queue and the gas limits, which a
+// dispatch changes by design)
+func (n *c17Net) digests() (string, string) {
 	ctx := n.queryCtx()
-	owner := -1
-	for _, o := range r.Perm(g.nAcc) {
-		if n.app.BankKeeper.GetBalance(ctx, n.accts[o].addr, c17TrigDen).Amount.Int64() >= 300 {
-			owner = o
-			break
+	ha, hb := sha256.New(), sha256.New()
+	for _, nm := range []string{"bank", "marker", "authz", "name", "trigger"} {
+		it := ctx.KVStore(n.app.GetKey(nm)).Iterator(nil, nil)
+		for ; it.Valid(); it.Next() {
+			k := it.Key()
+			switch nm {
+			case "bank":
+				if !(bytes.Contains(k, []byte(c17TrigDen)) || bytes.Contains(k, []byte(c17RDen))) {
+					continue
+				}
+				ha.Write(k)
+				ha.Write(it.Value())
+			case "trigger":
+				if len(k) > 0 && (k[0] == 0x01 || k[0] == 0x02 || k[0] == 0x05) {
+					hb.Write(k)
+					hb.Write(it.Value())
+				}
+			default:
+				ha.Write([]byte(nm))
+				ha.Write(k)
+				ha.Write(it.Value())
+			}
 		}
+		it.Close()
 	}
-	if owner < 0 {
-		return nil
-	}
-	na := 1 + r.Intn(3)
-	k := r.Intn(na + 2)
-	c := int64(g.cal.cTyp)
-	target := int64(k)*c + c/2 + int64(r.Intn(int(c/2))) - c/4
-	h := uint64(n.height+1) + 1 + uint64(r.Intn(3))
-	if g.burstH > uint64(n.height+1) && r.Intn(100) < 40 {
-		h = g.burstH
-	}
-	var msgs []sdk.Msg
-	var acts []string
-	for i := 0; i < na; i++ {
-		to := r.Intn(g.nAcc)
-		amt := int64(1 + r.Intn(9))
-		msgs = append(msgs, banktypes.NewMsgSend(n.accts[owner].addr, n.accts[to].addr, sdk.NewCoins(sdk.NewInt64Coin(c17TrigDen, amt))))
-		acts = append(acts, fmt.Sprintf("{| a_from := %d; a_to := %d; a_amt := %d; a_co := [] |}", owner, to, amt))
-	}
-	gas := g.cal.used[na] + 2510 + uint64(target)
-	m := triggertypes.MustNewCreateTriggerRequest([]string{g.addrStr(owner)}, &triggertypes.BlockHeightEvent{BlockHeight: h}, msgs)
-	bz, err := n.signTx(gas, []int{owner}, m)
-	if err != nil {
-		g.t.Fatalf("sign create: %v", err)
-	}
-	return &c17Plan{kind: "create", bz: bz, gas: gas, shape: "precise-gas", nActs: na, band: fmt.Sprintf("n=%d,k=%d", na, k),
-		coqPre: fmt.Sprintf("TCreate [%d] [%d] (EvHeight %d) %s %d", owner, owner, h, coqList(acts), gas),
-		desc:   fmt.Sprintf("create by [%d] on height>=%d, %d actions, gas %d (limit aimed at %d = %d..%d x one send)", owner, h, na, gas, target, k, k+1)}
+	return fmt.Sprintf("%x", ha.Sum(nil)), fmt.Sprintf("%x", hb.Sum(nil))
 }
 
-// planCreate builds a create-trigger transaction; most are valid.
-func (g *c17Gen) planCreate() *c17Plan {
-	r, n := g.r, g.n
-	if g.cal != nil && r.Intn(100) < 22 {
-		if p := g.planPrecise(); p != nil {
-			return p
-		}
-	}
-	owner := r.Intn(g.nAcc)
-	auths := []int{owner}
-	if r.Intn(4) == 0 {
-		o2 := (owner + 1 + r.Intn(g.nAcc-1)) % g.nAcc
-		auths = append(auths, o2)
-	}
-	shape := "valid"
-	noAnte := false
-	// event
-	var ev triggertypes.TriggerEventI
-	var evCoq, evDesc string
-	switch k := r.Intn(10); {
-	case k < 4: // height
-		h := uint64(n.height+1) + 1 + uint64(r.Intn(3)) // the tx runs in block n.height+1
-		if g.burstH > uint64(n.height+1) && r.Intn(100) < 60 {
-			h = g.burstH
-		}
-		if r.Intn(15) == 0 {
-			h = uint64(n.height+1) - uint64(r.Intn(2)) // not in the future: rejected by ValidateContext
-			shape = "past-height"
-		}
-		ev = &triggertypes.BlockHeightEvent{BlockHeight: h}
-		evCoq = fmt.Sprintf("(EvHeight %d)", h)
-		evDesc = fmt.Sprintf("height>=%d", h)
-	case k < 7: // time
-		// a time relative to the exact time of this or a coming block: equal to it, a nanosecond or a few
-		// hundred milliseconds before/after it (same second, earlier and later fraction)
-		k := g.bi + r.Intn(5)
-		var ref time.Time
-		if k < len(g.times) {
-			ref = g.times[k]
-		} else {
-			ref = g.times[len(g.times)-1].Add(time.Duration(1+r.Intn(20)) * time.Second)
-		}
-		deltas := []time.Duration{0, 1, -1, time.Millisecond, -time.Millisecond, 300 * time.Millisecond, -300 * time.Millisecond,
-			500 * time.Millisecond, 999 * time.Millisecond, time.Duration(1 + r.Intn(999_999_999)), -time.Duration(1 + r.Intn(999_999_999))}
-		tt := ref.Add(deltas[r.Intn(len(deltas))]).UnixNano()
-		if g.burstT > g.times[g.bi].UnixNano() && r.Intn(100) < 50 {
-			tt = g.burstT
-		}
-		if r.Intn(15) == 0 {
-			tt = g.times[g.bi].UnixNano() - int64(r.Intn(2))*int64(1+r.Intn(2_000_000_000)) // now or earlier: rejected
-			shape = "past-time"
-		}
-		ev = &triggertypes.BlockTimeEvent{Time: time.Unix(0, tt).UTC()}
-		evCoq = fmt.Sprintf("(EvTime %d)", tt)
-		evDesc = fmt.Sprintf("time>=%s", time.Unix(0, tt).UTC().Format("15:04:05.000000000"))
-	default: // transaction event
-		x := r.Intn(g.nAcc)
-		amt := fmt.Sprintf("%d%s", 7+r.Intn(3), c17EvtDen)
-		var name string
-		var attrs []triggertypes.Attribute
-		switch r.Intn(7) {
-		case 0:
-			name, attrs = "coin_received", []triggertypes.Attribute{{Name: "receiver", Value: g.addrStr(x)}}
-		case 1:
-			name, attrs = "coin_received", []triggertypes.Attribute{{Name: "receiver", Value: g.addrStr(x)}, {Name: "amount", Value: amt}}
-		case 2:
-			name, attrs = "transfer", []triggertypes.Attribute{{Name: "amount", Value: amt}, {Name: "sender", Value: ""}}
-		case 3:
-			name, attrs = "coin_spent", []triggertypes.Attribute{{Name: "spender", Value: g.addrStr(x)}}
-		case 4:
-			name, attrs = "message", []triggertypes.Attribute{{Name: "action", Value: "/cosmos.bank.v1beta1.MsgSend"}, {Name: "sender", Value: g.addrStr(x)}}
-		case 5:
-			name, attrs = "transfer", []triggertypes.Attribute{{Name: "recipient", Value: g.addrStr(x)}, {Name: "nosuchattr", Value: ""}}
-		default:
-			name, attrs = "coin_received", nil
-		}
-		if os.Getenv("VERIF_C17_RESERVED") == "1" && r.Intn(12) == 0 {
-			// a transaction event named like the height/time listener prefixes (see findings/C17.md):
-			// outside the property's text, so only generated on request
-			name, attrs = []string{"block-height", "block-time"}[r.Intn(2)], nil
-			shape = "reserved-event-name"
-		}
-		if r.Intn(25) == 0 {
-			attrs = append(attrs, triggertypes.Attribute{Name: " ", Value: "x"})
-			shape = "blank-attribute-name"
-			noAnte = true
-		}
-		ev = &triggertypes.TransactionEvent{Name: name, Attributes: attrs}
-		var as []string
-		for _, a := range attrs {
-			an := a.Name
-			if strings.TrimSpace(an) == "" {
-				an = ""
-			}
-			as = append(as, fmt.Sprintf("(%s, %s)", g.sym(an), g.sym(a.Value)))
-		}
-		evCoq = fmt.Sprintf("(EvTx %s %s)", g.sym(name), coqList(as))
-		evDesc = fmt.Sprintf("tx %s %v", name, attrs)
-	}
-	// actions
-	na := 1
-	switch k := r.Intn(10); {
-	case k < 5:
-		na = 1
-	case k < 8:
-		na = 2 + r.Intn(2)
-	default:
-		na = 4 + r.Intn(3)
-	}
-	if r.Intn(40) == 0 {
-		na = 0
-		noAnte = true
-		if shape == "valid" {
-			shape = "no-actions"
-		}
-	}
-	var msgs []sdk.Msg
-	var acts []string
-	ctx := n.queryCtx()
-	for i := 0; i < na; i++ {
-		from := auths[r.Intn(len(auths))]
-		if r.Intn(30) == 0 {
-			from = (auths[0] + 1 + r.Intn(g.nAcc-1)) % g.nAcc
-			isAuth := false
-			for _, a := range auths {
-				if a == from {
-					isAuth = true
-				}
-			}
-			if !isAuth {
-				noAnte = true
-				if shape == "valid" {
-					shape = "action-signer-not-authority"
-				}
-			}
-		}
-		to := r.Intn(g.nAcc)
-		bal := n.app.BankKeeper.GetBalance(ctx, n.accts[from].addr, c17TrigDen).Amount.Int64()
-		amt := int64(1 + r.Intn(40))
-		switch r.Intn(12) {
-		case 0:
-			amt = bal + 1 + int64(r.Intn(50)) // will very likely fail
-		case 1:
-			if bal > 0 {
-				amt = bal // everything: later actions of the same sender fail
-			}
-		case 2:
-			if r.Intn(4) == 0 {
-				amt = 0
-				if shape == "valid" {
-					shape = "zero-amount-action"
-				}
-			}
-		}
-		msgs = append(msgs, &banktypes.MsgSend{FromAddress: g.addrStr(from), ToAddress: g.addrStr(to),
-			Amount: sdk.Coins{sdk.Coin{Denom: c17TrigDen, Amount: sdkmath.NewInt(amt)}}})
-		acts = append(acts, fmt.Sprintf("{| a_from := %d; a_to := %d; a_amt := %d; a_co := [] |}", from, to, amt))
-	}
-	nested := false
-	// sometimes one more action with TWO required signers: a nested MsgCreateTriggerRequest (authorities x, y)
-	// whose own condition is a past height, so that it passes ValidateBasic and always fails when run
-	if na > 0 && r.Intn(8) == 0 && (len(auths) > 1 || r.Intn(3) == 0) {
-		x := auths[r.Intn(len(auths))]
-		y := auths[len(auths)-1]
-		if len(auths) == 1 || r.Intn(3) == 0 {
-			y = (x + 1 + r.Intn(g.nAcc-1)) % g.nAcc
-		}
-		if y != x {
-			yIsAuth := false
-			for _, a := range auths {
-				if a == y {
-					yIsAuth = true
-				}
-			}
-			if !yIsAuth {
-				noAnte = true
-				if shape == "valid" {
-					shape = "action-cosigner-not-authority"
-				}
-			} else if shape == "valid" {
-				shape = "valid-two-signer-action"
-			}
-			inner := triggertypes.MustNewCreateTriggerRequest([]string{g.addrStr(x), g.addrStr(y)},
-				&triggertypes.BlockHeightEvent{BlockHeight: 1},
-				[]sdk.Msg{banktypes.NewMsgSend(n.accts[x].addr, n.accts[y].addr, sdk.NewCoins(sdk.NewInt64Coin(c17TrigDen, 1)))})
-			nested = true
-			pos := r.Intn(len(msgs) + 1)
-			msgs = append(msgs[:pos], append([]sdk.Msg{inner}, msgs[pos:]...)...)
-			acts = append(acts[:pos], append([]string{fmt.Sprintf("{| a_from := %d; a_to := %d; a_amt := 0; a_co := [%d] |}", x, y, y)}, acts[pos:]...)...)
-			na++
-		}
-	}
-	// signers
-	signers := append([]int{}, auths...)
-	if r.Intn(30) == 0 {
-		switch r.Intn(3) {
-		case 0:
-			if len(signers) > 1 {
-				signers = signers[:1]
-			} else {
-				signers = []int{(auths[0] + 1) % g.nAcc}
-			}
-		case 1:
-			signers = []int{(auths[0] + 1 + r.Intn(g.nAcc-1)) % g.nAcc}
-		default:
-			extra := (auths[len(auths)-1] + 1) % g.nAcc
-			if extra != auths[0] {
-				signers = append(signers, extra)
-			}
-		}
-		if fmt.Sprint(signers) != fmt.Sprint(auths) {
-			noAnte = true
-			if shape == "valid" {
-				shape = "authority-did-not-sign"
-			}
-		}
-	}
-	// gas: the limit the trigger gets is what is left of the tx gas
-	base := uint64(70000 + 5800*na + 1500*(len(auths)-1))
-	if _, ok := ev.(*triggertypes.TransactionEvent); ok {
-		base += 3000
-	}
-	if nested {
-		base += 9000
-	}
-	var target uint64
-	lowGas := false
-	gc := r.Intn(100)
-	if g.style == 1 { // heavy-gas histories
-		gc = 60 + r.Intn(40)
-	}
-	switch {
-	case gc < 20:
-		target = uint64(500 + r.Intn(30000))
-	case gc < 75:
-		target = uint64(40000 + r.Intn(120000))
-	case gc < 90:
-		target = uint64(300000 + r.Intn(900000))
-	case gc < 97:
-		target = uint64(1900000 + r.Intn(900000))
-	default:
-		target = 0
-		base -= uint64(3000 + r.Intn(20000)) // probably not enough gas for the creation itself
-		lowGas = true
-		if shape == "valid" {
-			shape = "low-gas"
-		}
-	}
-	if target < 15000 {
-		lowGas = true // the estimate of the overhead is rough: the creation itself may run out of gas
-	}
-	gas := base + 2510 + target
-	if gas > 3900000 {
-		gas = 3900000
-	}
-	authStrs := make([]string, len(auths))
-	for i, a := range auths {
-		authStrs[i] = g.addrStr(a)
-	}
-	eventAny, err := codectypes.NewAnyWithValue(ev)
-	if err != nil {
-		g.t.Fatal(err)
-	}
-	actAnys, err := sdktx.SetMsgs(msgs)
-	if err != nil {
-		g.t.Fatal(err)
-	}
-	msg := &triggertypes.MsgCreateTriggerRequest{Authorities: authStrs, Event: eventAny, Actions: actAnys}
-	bz, err := n.signTx(gas, signers, msg)
-	if err != nil {
-		g.t.Fatalf("sign create: %v", err)
-	}
-	return &c17Plan{kind: "create", bz: bz, gas: gas, shape: shape, lowGas: lowGas, noAnte: noAnte, nActs: na,
-		coqPre: fmt.Sprintf("TCreate %s %s %s %s %d", c17NList(signers), c17NList(auths), evCoq, coqList(acts), gas),
-		desc:   fmt.Sprintf("create by %v signed %v on %s, %d actions, gas %d (%s)", auths, signers, evDesc, na, gas, shape)}
+func c17Nanos(t time.Time) *big.Int {
+	v := new(big.Int).Mul(big.NewInt(t.Unix()), big.NewInt(1_000_000_000))
+	return v.Add(v, big.NewInt(int64(t.Nanosecond())))
 }
 
-func (g *c17Gen) planDestroy() *c17Plan {
-	r, n := g.r, g.n
-	var id uint64
-	who := r.Intn(g.nAcc)
-	shape := "unknown-id"
-	noAnte := false
-	k := r.Intn(20)
-	switch {
-	case k < 13 && len(g.reg) > 0:
-		tr := g.reg[r.Intn(len(g.reg))]
-		id = tr.id
-		if r.Intn(4) == 0 {
-			who = (tr.owner + 1 + r.Intn(g.nAcc-1)) % g.nAcc
-			shape = "stranger"
-		} else {
-			who = tr.owner
-			shape = "owner"
-		}
-	case k < 17 && len(g.queue) > 0:
-		tr := g.queue[r.Intn(len(g.queue))]
-		id, who, shape = tr.id, tr.owner, "queued"
-	case k < 18:
-		id, shape, noAnte = 0, "zero-id", true
-	case k < 19:
-		id, shape = g.maxID+1, "maybe-created-this-block"
-	default:
-		if g.maxID > 0 {
-			id = 1 + uint64(r.Intn(int(g.maxID)))
-		} else {
-			id = 3
-		}
-		shape = "random-id"
-	}
-	msg := triggertypes.NewDestroyTriggerRequest(g.addrStr(who), id)
-	bz, err := n.signTx(150000, []int{who}, msg)
-	if err != nil {
-		g.t.Fatalf("sign destroy: %v", err)
-	}
-	return &c17Plan{kind: "destroy", bz: bz, gas: 150000, shape: shape, noAnte: noAnte,
-		coqPre: fmt.Sprintf("TDestroy %d %d", who, id), desc: fmt.Sprintf("destroy %d by %d (%s)", id, who, shape)}
-}
-
-func (g *c17Gen) planSend(den string) *c17Plan {
-	r, n := g.r, g.n
-	from := r.Intn(g.nAcc)
-	to := r.Intn(g.nAcc)
-	amt := int64(7 + r.Intn(3))
-	kind := "emit"
-	if den == c17TrigDen {
-		kind = "tsend"
-		bal := n.app.BankKeeper.GetBalance(n.queryCtx(), n.accts[from].addr, c17TrigDen).Amount.Int64()
-		amt = int64(1 + r.Intn(300))
-		if r.Intn(5) == 0 {
-			amt = bal + int64(r.Intn(3))
-		}
-		if amt == 0 {
-			amt = 1
-		}
-	} else if r.Intn(12) == 0 {
-		amt = 2_000_000_000 // fails: its events never reach the history
-	}
-	msg := banktypes.NewMsgSend(n.accts[from].addr, n.accts[to].addr, sdk.NewCoins(sdk.NewInt64Coin(den, amt)))
-	bz, err := n.signTx(200000, []int{from}, msg)
-	if err != nil {
-		g.t.Fatalf("sign send: %v", err)
-	}
-	return &c17Plan{kind: kind, bz: bz, gas: 200000, shape: kind,
-		coqPre: fmt.Sprintf("TSend %d %d %d", from, to, amt), desc: fmt.Sprintf("send %d%s %d->%d", amt, den, from, to)}
-}
-
-// observe reads registry, queue and balances from the committed state.
-func (g *c17Gen) observe() (regT, queueT, balT string, limits map[uint64]uint64) {
-	n := g.n
-	ctx := n.queryCtx()
-	idx := map[string]int{}
-	for i := range n.accts {
-		idx[n.accts[i].addr.String()] = i
-	}
-	limits = map[uint64]uint64{}
-	gls, err := n.app.TriggerKeeper.GetAllGasLimits(ctx)
-	if err != nil {
-		g.t.Fatal(err)
-	}
-	for _, gl := range gls {
-		limits[gl.TriggerId] = gl.Amount
-	}
-	trs, err := n.app.TriggerKeeper.GetAllTriggers(ctx)
-	if err != nil {
-		g.t.Fatal(err)
-	}
-	g.reg = g.reg[:0]
-	var ri []string
-	for _, tr := range trs {
-		o, ok := idx[tr.Owner]
-		if !ok {
-			o = 999
-		}
-		lim, has := limits[tr.Id]
-		if !has {
-			lim = 999999999 // a registered trigger without a gas limit: shows up as a mismatch
-		}
-		ri = append(ri, fmt.Sprintf("(%d, %d, %d)", tr.Id, o, lim))
-		g.reg = append(g.reg, c17Trig{tr.Id, o})
-		if tr.Id > g.maxID {
-			g.maxID = tr.Id
-		}
-	}
-	qs, err := n.app.TriggerKeeper.GetAllQueueItems(ctx)
-	if err != nil {
-		g.t.Fatal(err)
-	}
-	g.queue = g.queue[:0]
-	var qi []string
-	for _, q := range qs {
-		lim, has := limits[q.Trigger.Id]
-		if !has {
-			lim = 999999999
-		}
-		qi = append(qi, fmt.Sprintf("(%d, %d)", q.Trigger.Id, lim))
-		g.queue = append(g.queue, c17Trig{q.Trigger.Id, idx[q.Trigger.Owner]})
-		if q.Trigger.Id > g.maxID {
-			g.maxID = q.Trigger.Id
-		}
-	}
-	var bi []string
-	for i := 0; i < g.nAcc; i++ {
-		b := n.app.BankKeeper.GetBalance(ctx, n.accts[i].addr, c17TrigDen).Amount
-		bi = append(bi, fmt.Sprintf("(%d, %s%%Z)", i, zInt(b)))
-	}
-	g.limits = limits
-	return coqList(ri), coqList(qi), coqList(bi), limits
+func c17TimeOf(nanos *big.Int) time.Time {
+	sec, ns := new(big.Int).DivMod(nanos, big.NewInt(1_000_000_000), new(big.Int))
+	return time.Unix(sec.Int64(), ns.Int64()).UTC()
 }
 
 func c17Attr(e abci.Event, key string) (string, bool) {
@@ -792,257 +284,19 @@ func c17Attr(e abci.Event, key string) (string, bool) {
 	return "", false
 }
 
-func c17History(t *testing.T, r *rand.Rand, w *CaseWriter, hi int, cal *c17Cal) {
-	const nAcc = 5
-	bal := make([]int64, nAcc)
-	for i := range bal {
-		switch r.Intn(4) {
-		case 0:
-			bal[i] = int64(r.Intn(60))
-		default:
-			bal[i] = int64(200 + r.Intn(3000))
-		}
+func c17NList(xs []int) string {
+	items := make([]string, len(xs))
+	for i, x := range xs {
+		items[i] = strconv.Itoa(x)
 	}
-	n := c17NewNet(t, nAcc, bal)
-	g := &c17Gen{t: t, r: r, w: w, n: n, nAcc: nAcc, intern: map[string]int{}, style: r.Intn(3), cal: cal, band: map[uint64]string{}}
-	g.nActs = map[uint64]int{}
-	_, _, bal0, _ := g.observe()
-	nBlocks := 5 + r.Intn(26)
-	if tier() == "quick" && nBlocks > 18 {
-		nBlocks = 10 + r.Intn(9)
-	}
-	// block times: a few seconds apart, with sub-second parts (none, round milliseconds, arbitrary nanoseconds)
-	at := n.now
-	for b := 0; b < nBlocks; b++ {
-		dt := 5
-		if r.Intn(6) == 0 {
-			dt = 1 + r.Intn(30)
-		}
-		at = at.Truncate(time.Second).Add(time.Duration(dt) * time.Second)
-		switch r.Intn(5) {
-		case 0:
-		case 1:
-			at = at.Add(time.Duration(r.Intn(1000)) * time.Millisecond)
-		case 2:
-			at = at.Add(200 * time.Millisecond)
-		case 3:
-			at = at.Add(999_999_999)
-		default:
-			at = at.Add(time.Duration(r.Intn(1_000_000_000)))
-		}
-		g.times = append(g.times, at)
-	}
-	if g.style != 1 { // burst: many triggers become ready in the same block
-		g.burstH = uint64(n.height) + 3 + uint64(r.Intn(4))
-		bt := g.times[(2+r.Intn(5))%nBlocks]
-		g.burstT = bt.Add([]time.Duration{0, 1, -1, 400 * time.Millisecond, -400 * time.Millisecond}[r.Intn(5)]).UnixNano()
-	}
-	var blocks, descs []string
-	executedAny, carried := false, false
-	for b := 0; b < nBlocks; b++ {
-		nt := r.Intn(7)
-		g.bi = b
-		if g.burstH > uint64(n.height+1) || g.burstT > g.times[b].UnixNano() {
-			nt += 2
-		}
-		if b >= nBlocks-3 {
-			nt = r.Intn(2) // let the queue drain
-		}
-		var plans []*c17Plan
-		blocked := map[int]bool{}
-		for i := 0; i < nt; i++ {
-			var p *c17Plan
-			n.lastSigners = nil
-			switch k := r.Intn(20); {
-			case k < 10:
-				p = g.planCreate()
-			case k < 13:
-				p = g.planDestroy()
-			case k < 17:
-				p = g.planSend(c17EvtDen)
-			default:
-				p = g.planSend(c17TrigDen)
-			}
-			skip := false
-			for _, s := range n.lastSigners {
-				if blocked[s] {
-					skip = true
-				}
-			}
-			if skip {
-				continue
-			}
-			// transactions that fail before or inside the ante handler do not advance sequences; the
-			// accounts of a tx whose fate there is uncertain sign nothing else in this block
-			if p.noAnte || p.lowGas {
-				for _, s := range n.lastSigners {
-					blocked[s] = true
-				}
-			} else {
-				for _, s := range n.lastSigners {
-					n.pendingSeq[s]++
-				}
-			}
-			plans = append(plans, p)
-		}
-		txs := make([][]byte, len(plans))
-		for i, p := range plans {
-			txs[i] = p.bz
-		}
-		queuedBefore := len(g.queue)
-		prevLimits := g.limits
-		res := n.block(g.times[b], txs)
-		if res == nil {
-			descs = append(descs, fmt.Sprintf("h%d: CHAIN HALTED: %v", n.height, n.haltErr))
-			w.Count("chain_halts")
-			break
-		}
-		regT, queueT, balT, limits := g.observe()
-		// executed triggers
-		var exec, oracle []string
-		nExec := 0
-		for _, e := range res.Events {
-			if e.Type != "provenance.trigger.v1.EventTriggerExecuted" {
-				continue
-			}
-			idq, _ := c17Attr(e, "trigger_id")
-			id, err := strconv.ParseUint(strings.Trim(idq, "\""), 10, 64)
-			if err != nil {
-				t.Fatalf("trigger id %q", idq)
-			}
-			okS, _ := c17Attr(e, "success")
-			ok := okS == "true"
-			exec = append(exec, fmt.Sprintf("(%d, %s)", id, coqBool(ok)))
-			nExec++
-			executedAny = true
-			band := "gas-unknown-band"
-			if na := uint64(g.nActs[id]); prevLimits[id] < 4000*na {
-				band = "gas-surely-too-little"
-			} else if prevLimits[id] >= 45000*na {
-				band = "gas-ample"
-			}
-			if bd, has := g.band[id]; has {
-				w.Count("precise:" + bd + ":" + map[bool]string{true: "ok", false: "failed"}[ok])
-			}
-			if ok {
-				w.Count("triggers_executed_ok")
-				w.Count("executed_ok:" + band)
-			} else {
-				w.Count("triggers_executed_failed")
-				w.Count("executed_failed:" + band)
-				oracle = append(oracle, strconv.FormatUint(id, 10))
-			}
-		}
-		if nExec > 0 && queuedBefore > nExec {
-			carried = true
-			w.Count("blocks_with_carry_over")
-		}
-		// transactions
-		var txT, resT, evT []string
-		for i, p := range plans {
-			tr := res.TxResults[i]
-			ok := tr.Code == 0
-			w.Count("tx_" + p.kind)
-			if ok {
-				w.Count("tx_accepted")
-				w.Count("tx_" + p.kind + "_accepted")
-			} else {
-				w.Count("tx_rejected")
-			}
-			w.Count("shape:" + p.shape + ":" + map[bool]string{true: "accepted", false: "rejected"}[ok])
-			if ok {
-				for _, e := range tr.Events {
-					if !c17EventTypes[e.Type] {
-						continue
-					}
-					if _, has := c17Attr(e, "msg_index"); !has {
-						continue // ante and fee events are not part of the block's event history
-					}
-					var as []string
-					for _, a := range e.Attributes {
-						as = append(as, fmt.Sprintf("(%s, %s)", g.sym(a.Key), g.sym(a.Value)))
-					}
-					evT = append(evT, fmt.Sprintf("{| em_type := %s; em_attrs := %s |}", g.sym(e.Type), coqList(as)))
-				}
-			}
-			if p.kind == "emit" {
-				continue
-			}
-			term := p.coqPre
-			rterm := "None"
-			if p.kind == "create" {
-				used := uint64(0)
-				var id uint64
-				if ok {
-					var d sdk.TxMsgData
-					if err := d.Unmarshal(tr.Data); err != nil || len(d.MsgResponses) != 1 {
-						t.Fatalf("tx data: %v", err)
-					}
-					var resp triggertypes.MsgCreateTriggerResponse
-					if err := resp.Unmarshal(d.MsgResponses[0].Value); err != nil {
-						t.Fatal(err)
-					}
-					id = resp.Id
-					g.nActs[id] = p.nActs
-					if p.band != "" {
-						g.band[id] = p.band
-					}
-					if id > g.maxID {
-						g.maxID = id
-					}
-					if lim, has := limits[id]; has && uint64(tr.GasUsed) >= lim+2510 {
-						used = uint64(tr.GasUsed) - lim - 2510
-					}
-					rterm = fmt.Sprintf("(Some (%d, %d))", id, tr.GasUsed)
-				} else if tr.Codespace == "sdk" && tr.Code == 11 {
-					used = p.gas // out of gas
-					w.Count("create_out_of_gas")
-				}
-				term = fmt.Sprintf("%s %d", term, used)
-			} else if ok {
-				rterm = fmt.Sprintf("(Some (0, %d))", tr.GasUsed)
-			}
-			txT = append(txT, "("+term+")")
-			resT = append(resT, rterm)
-			descs = append(descs, fmt.Sprintf("h%d: %s -> %v", n.height, p.desc, ok))
-		}
-		blk := fmt.Sprintf("{| b_height := %d; b_time := %d; b_oracle := %s; b_txs := %s; b_events := %s |}",
-			n.height, n.now.UnixNano(), coqList(oracle), coqList(txT), coqList(evT))
-		ob := fmt.Sprintf("{| ob_exec := %s; ob_txres := %s; ob_reg := %s; ob_queue := %s; ob_bal := %s |}",
-			coqList(exec), coqList(resT), regT, queueT, balT)
-		blocks = append(blocks, "("+blk+",\n    "+ob+")")
-		if len(exec) > 0 {
-			descs = append(descs, fmt.Sprintf("h%d: executed %v; queue now %s", n.height, exec, queueT))
-		}
-		w.Count("blocks")
-		w.CountN("events_in_history", int64(len(evT)))
-	}
-	accN := make([]int, nAcc)
-	for i := range accN {
-		accN[i] = i
-	}
-	ctor := "CHist"
-	if n.haltErr != nil {
-		ctor = "CHalt"
-	}
-	w.Add(fmt.Sprintf("(%s %s %s %d\n   %s)%%N", ctor, c17NList(accN), bal0, cal.cMin, coqList(blocks)), map[string]any{"history": hi, "blocks": nBlocks, "steps": descs})
-	w.Count("histories")
-	if carried {
-		w.Count("histories_with_carry_over")
-	}
-	if executedAny {
-		sort.Strings(descs)
-		w.Nontrivial(fmt.Sprintf("%d/%s", hi, strings.Join(descs, ";")))
-	}
+	return coqList(items)
 }
 
-func TestC17(t *testing.T) {
-	r := newRand("C17")
-	w := NewCaseWriter("C17", "PV.Corr.C17", "check_all", 25)
-	nh := scale(100, 1500)
-	cal := c17Calibrate(t, w)
-	for hi := 0; hi < nh; hi++ {
-		c17History(t, r, w, hi, cal)
+func c17In(x int, l []int) bool {
+	for _, y := range l {
+		if x == y {
+			return true
+		}
 	}
-	w.Flush(t)
+	return false
 }
